@@ -45,41 +45,21 @@ def wf_src(nodes, edges, typed):
 
 
 def run_graph(case):
-    nodes, edges, typed, worker = case["nodes"], [tuple(e) for e in case["edges"]], case["typed"], case["worker"]
+    import subprocess
     base = tempfile.mkdtemp(prefix="verif_cyc_")
     out = os.path.join(base, "out.json")
     bound = case.get("bound", 40)
-    pid = os.fork()
-    if pid == 0:
-        try:
-            src = wf_src(nodes, edges, typed)
-            p = Path(base) / f"cw_{abs(hash(src)) % 10**8}.py"
-            p.write_text(src)
-            spec = importlib.util.spec_from_file_location(p.stem, p)
-            mod = importlib.util.module_from_spec(spec)
-            sys.modules[p.stem] = mod
-            res = {}
-            try:
-                spec.loader.exec_module(mod)
-                kw = {"n_procs": 2} if worker == "cf" else {}
-                o = mod.CW(x=1)(cache_root=os.path.join(base, "cache"), worker=worker, **kw)
-                res = {"status": "returned", "outputs": {n: getattr(o, "o_" + n) for n in nodes}}
-            except BaseException as e:  # noqa
-                res = {"status": "raised", "error": f"{type(e).__name__}: {str(e)[:200]}"}
-            json.dump(res, open(out, "w"), default=str)
-        finally:
-            os._exit(0)
-    t0 = time.time()
+    json.dump({k: case[k] for k in ("nodes", "edges", "typed", "worker")}, open(os.path.join(base, "case.json"), "w"))
+    proc = subprocess.Popen([core.PY, "-m", "harness.cyc_child", base], env=core.child_env(hooks=True),
+                            stdout=subprocess.DEVNULL, stderr=subprocess.DEVNULL)
     try:
-        while True:
-            r, st = os.waitpid(pid, os.WNOHANG)
-            if r == pid:
-                break
-            if time.time() - t0 > bound:
-                os.kill(pid, signal.SIGKILL)
-                os.waitpid(pid, 0)
-                return {"status": "killed", "after_s": bound}
-            time.sleep(0.01)
+        try:
+            proc.wait(timeout=bound)
+        except subprocess.TimeoutExpired:
+            proc.kill()
+            proc.wait()
+            subprocess.run(["pkill", "-f", base], check=False)
+            return {"status": "killed", "after_s": bound}
         return json.load(open(out)) if os.path.exists(out) else {"status": "child-died"}
     finally:
         shutil.rmtree(base, ignore_errors=True)
@@ -120,7 +100,7 @@ def run(ctx):
     else:
         pick = ctx.rng.sample(cyc, min(len(cyc), 36)) + ctx.rng.sample(acy, min(len(acy), 20))
         pick += [dict(c, worker="cf") for c in ctx.rng.sample(cyc, 3) + ctx.rng.sample(acy, 3)]
-    res = core.pmap(run_graph_robust, pick, procs=8, chunksize=1)
+    res = core.tmap(run_graph_robust, pick, threads=8)
     for c, o in zip(pick, res):
         ctx.ran()
         ctx.nontriv(json.dumps([c["edges"], c["typed"], c["worker"]]))
